@@ -27,7 +27,7 @@ LEVEL = 'exploration'
 DECIDING = ['c07:results_checked']
 RULE = ('a case = one generated program (as C05/C06, with comments and blank lines added) re-encoded '
         'as LF / CRLF / CR / no final newline / CRLF without final newline / non-ASCII identifiers and '
-        'comments, written to a real directory; requests: rename of role-tagged identifiers, '
+        'comments / form feeds and other str.splitlines-only separators, written to a real directory; requests: rename of role-tagged identifiers, '
         'extract_variable / extract_function on ast expression ranges, inline of single-assignment '
         'variables, plus out-of-range positions; half of the results are inspected only, half applied. '
         'Non-trivial: >= 8 results checked; distinct by program text and encoding.')
@@ -35,7 +35,7 @@ ASSUMPTIONS = ['patch(1) (GNU patch --binary) and the harness\'s strict applier 
                'CR-only files are checked with the own applier only (patch(1) splits on LF)']
 SIZES = {'quick': (96, 24), 'thorough': (800, 60)}
 TIMEOUT = {'quick': 1500, 'thorough': 6 * 3600}
-FORMATS = ['lf', 'crlf', 'nofinal', 'crlf_nofinal', 'unicode', 'cr', 'lf', 'crlf']
+FORMATS = ['lf', 'crlf', 'nofinal', 'crlf_nofinal', 'unicode', 'cr', 'formfeed', 'crlf']
 FRESH = 'zq_fresh_name'
 
 
@@ -71,6 +71,15 @@ def encode(files, fmt):
         if fmt == 'unicode':
             t = re.sub(r'\b(var|par|fn|cls|attr|meth)_', lambda m: m.group(1) + '_é', t)
             t = t.replace('# a comment line', '# ein Kommentar mit Ümlaut — and “quotes”')
+        if fmt == 'formfeed':
+            # ^L section separators (a line of its own in front of top-level definitions, and inside
+            # comments): a line break for str.splitlines(), not for Python, parso or diff tools
+            out_l = []
+            for l in t.split('\n'):
+                if l.startswith(('def ', 'class ')) and out_l:
+                    out_l.append('\x0c')
+                out_l.append(l.replace('# a comment line', '# a comment \x0c with a form feed and \x1c more'))
+            t = '\n'.join(out_l)
         if fmt in ('crlf', 'crlf_nofinal'):
             t = t.replace('\n', '\r\n')
         if fmt == 'cr':
